@@ -676,10 +676,12 @@ impl JoinPlanner {
                 }
             }
 
-            // Build output schema (union of variables, shared vars once)
+            // Build output schema exactly as the join produces its columns: every left
+            // column, then every right column that is not a join key (so a variable that
+            // occurs twice inside one atom keeps both of its columns)
             let mut output_schema = current_schema.clone();
-            for var in &next_schema {
-                if !output_schema.contains(var) {
+            for (j, var) in next_schema.iter().enumerate() {
+                if !right_keys.contains(&j) {
                     output_schema.push(var.clone());
                 }
             }
